@@ -14,6 +14,12 @@ of provenance ancestors of the failing job (`fail_sel`: per-job directories and 
 location).  These are the histories in which a recovery meets an old LOST instance of a job and a newer AVAILABLE one
 on the same port (GraphMapper._update_token: the available one wins, the job must not run again); the model
 classifies every plan (`superseded`: late / early = the order in which the breadth-first walk meets the two).
+
+Third family (overlapping recoveries, module RecoveryConc with the ROLLBACK window made visible): consumers of one
+producer fail together, the first failure destroys the producer's output; TLC enumerates the interleavings, the ones
+in which a recovery synchronizes while the producer - rolled back by another recovery - has NOT been scheduled again
+yet (status ROLLBACK) are imposed on the real engine with gates: the second recovery must attach to the first one's
+workflow and the producer runs once more, not twice (`is_recovering` must cover ROLLBACK).
 """
 from __future__ import annotations
 
@@ -94,6 +100,7 @@ def run(ctx):
                         "real_attempts": None if case["hang"] else case["o"]["attempts"], "schedule": None if case["hang"] else case["o"]["hist"]})
     ctx.require(n_must_not >= 20, "vacuous: only %d plans contain a job that must not run again" % n_must_not)
     run_dags(ctx, len(cases))
+    run_window(ctx)
     ctx.exhaustive = False
     ctx.assumptions += ["see C16; availability is that of files on the volatile directories; the model's data instances are (job, generation)",
                         "two-location pipelines (pipeNx) give frontiers that stop at data surviving on the other location"]
@@ -136,8 +143,65 @@ def run_dags(ctx, base):
                         "transfer steps of one job fail at once are not run (concurrent recoveries: C19)"]
 
 
+def check_window(ctx, b):
+    o = rm.run_window(ctx, b)
+    cons = sorted(b["needs"])
+    cls = "fan%d:%s:sync-in-rollback-window" % (b["n"], b["ph"])
+    det = {"family": "window", "n": b["n"], "wiper": b["wiper"], "needs": b["needs"], "phases": b["ph"], "trace": b["trace"],
+           "model": {k: b[k] for k in ("pc", "saw", "dec", "link", "execs", "losses")}, "observed": o}
+    m_dec = {c: {p: b["dec"][c][p] for p in b["needs"][c]} for c in cons}
+    if o["outcome"] != "return":
+        ctx.violation("c18:%s:%s" % ("hang" if o["outcome"] == "hang" else "raised", cls), det,
+                      "overlapping recoveries: the run did not return (%s %s); the model terminates with producer executions %s" % (o["outcome"], o["error"], b["execs"]))
+        return False
+    over = {p: (n, b["execs"][p]) for p, n in o["execs"].items() if n > b["execs"][p]}
+    if over:
+        ctx.violation("c18:reexecuted-unneeded:src:%s" % cls, det,
+                      "a producer already rolled back by one recovery (status ROLLBACK, not yet scheduled again) was rolled back again by the overlapping "
+                      "recovery: executions (real, model) %s, decisions %s, model %s" % (over, o["decisions"], m_dec))
+        return False
+    if o["script_failed"] or o["decisions"] != m_dec or o["execs"] != b["execs"]:
+        ctx.violation("c18:overlap-model-mismatch:%s" % cls, det, "the real engine did not follow the behaviour: gate %s, decisions %s (model %s), executions %s (model %s)" % (
+            o["script_failed"], o["decisions"], m_dec, o["execs"], b["execs"]))
+        return False
+    return True
+
+
+def run_window(ctx):
+    """Overlapping recoveries: a Synchronize inside the ROLLBACK window of a shared producer (see the module docstring)."""
+    rng = ctx.rng("window")
+    chosen = []
+    for n, ph, simul, pick in ctx.pick([(2, "ee", False, 3)], [(2, "ee", False, 10), (3, "eee", False, 40)]):
+        bs = rm.window_behaviours(ctx, n, ph, 1, simul)
+        win = [b for b in bs if "stuck" not in b["pc"].values()
+               and any(s == "rollback" for sts in rm.window_syncs(b).values() for s in sts.values())
+               # (a Synchronize AFTER a regeneration completed rolls the producer back again: the listed C19 defect, not this family)
+               and all(s != "completed" or not any(e[0] == "finishA" for e in b["trace"][:b["trace"].index(("sync", c))])
+                       for c, sts in rm.window_syncs(b).items() for s in sts.values())]
+        ctx.count("model_behaviours:window:%d:%s" % (n, ph), len(bs))
+        ctx.count("model_behaviours_sync_in_rollback_window:%d:%s" % (n, ph), len(win))
+        ctx.require(win, "vacuous: no behaviour with a Synchronize inside the ROLLBACK window (%d %s)" % (n, ph))
+        win.sort(key=lambda b: json.dumps(b["trace"]))
+        rng.shuffle(win)
+        chosen += win[:pick]
+    for b in chosen:
+        ctx.case(json.dumps(["window", b["n"], b["ph"], b["trace"]]), nontrivial=True)
+        ctx.impl_trace(1)
+        if check_window(ctx, b):
+            ctx.count("real:window:agree")
+        ctx.count("real:window")
+    ctx.sample({"family": "window", "trace": chosen[0]["trace"], "model_dec": chosen[0]["dec"], "model_execs": chosen[0]["execs"]})
+    ctx.assumptions += ["window family: gates hold every (re-)scheduled job before Scheduler.schedule, before its stage-in and before its command "
+                        "completes, every recovery between build_graph and the request locks; execute-phase failures only"]
+
+
 def replay(ctx, data):
     d = data["detail"]
+    if d.get("family") == "window":
+        b = {"n": d["n"], "wiper": d["wiper"], "needs": d["needs"], "ph": d["phases"], "trace": [tuple(e) for e in d["trace"]]}
+        b.update(d["model"])
+        print(json.dumps({"replayed": b["trace"], "ok": check_window(ctx, b)}))
+        return
     shape, plan = d["shape"], d.get("plan") or {}
     mt = max([int(v[0]) for v in plan.values()] or [1])
     if shape.startswith("dag"):
